@@ -87,7 +87,7 @@ def gen_ops(g, procs):
 
 
 def total_runs(tier):
-    return 2500 if tier == 'quick' else 400000
+    return 2500 if tier == 'quick' else 200000
 
 
 def make_plan(i, master, tier):
